@@ -101,9 +101,18 @@ def execute(sc: dict, seed: int) -> dict:
                         fk = s["faults"][0]["kind"]
                         stats[f"fault.{kind}"] = stats.get(f"fault.{kind}", 0) + 1
                 else:
-                    happened = (not oc["ok"]) and oc.get("exc_type") == f["expect_exc"] and len(rr["exec_log"]) == f["expect_sers"]
+                    # whether the configuration fails as the bookkeeping predicts is decided on an UNTRACED run of the same
+                    # configuration, so that a tracing defect on this path is judged by the oracle instead of being skipped
+                    rru = harness.run_scenario(s, w, trace_mode="none", name=f"u{i}")
+                    ou = rru["outcome"]
+                    happened = (not ou["ok"]) and ou.get("exc_type") == f["expect_exc"] and len(rru["exec_log"]) == f["expect_sers"]
                     if happened:
                         stats[f"fault.{kind}"] = stats.get(f"fault.{kind}", 0) + 1
+                        # "The original exception reaches the caller unchanged": the traced run fails like the untraced one
+                        if oc["ok"] or oc.get("exc_type") != ou.get("exc_type") or oc.get("exc_msg") != ou.get("exc_msg"):
+                            viols.append(oracles.V("exception", f"traced_failure_differs_from_untraced/{kind}",
+                                                   f"untraced: {ou.get('exc_type')}: {ou.get('exc_msg')!r}; traced (detail={detail}, mode={mode}): "
+                                                   + (f"{oc.get('exc_type')}: {oc.get('exc_msg')!r}" if not oc["ok"] else "returned")))
                 if not happened:
                     stats["subrun_not_as_planned"] = stats.get("subrun_not_as_planned", 0) + 1
                     if not f.get("injected"):
